@@ -12,20 +12,14 @@ EXTENDS Ebpf, Json, IOUtils
 Cases == JsonDeserialize(IOEnv.TRACE_FILE)
 
 Env(k) == [programs |-> k.programs, maps |-> k.maps, progs |-> k.progs, orc |-> k.orc]
-Mem0(k) ==
-    LET arrR == {Rg("arr", k.arr[j].fd, <<>>) : j \in 1 .. Len(k.arr)}
-        hashR == {Rg("hash", k.hash[j].fd, k.hash[j].key) : j \in 1 .. Len(k.hash)}
-        dom == {RStack, RPkt, RCtx} \cup arrR \cup hashR IN
-    [r \in dom |->
-        IF r = RStack THEN FreshStack
-        ELSE IF r = RPkt THEN k.pkt
-        ELSE IF r = RCtx THEN <<>>
-        ELSE IF r.k = "arr" THEN (CHOOSE j \in 1 .. Len(k.arr) : k.arr[j].fd = r.fd) \* index
-        ELSE (CHOOSE j \in 1 .. Len(k.hash) : k.hash[j].fd = r.fd /\ k.hash[j].key = r.key)]
-(* the CHOOSEs above pick an index; resolve it to the bytes *)
-Mem(k) == LET m0 == Mem0(k) IN
-    [r \in DOMAIN m0 |-> IF r.k = "arr" THEN k.arr[m0[r]].bytes
-                         ELSE IF r.k = "hash" THEN k.hash[m0[r]].val ELSE m0[r]]
+(* the initial memory as a CONCRETE function (built with :> and @@): a function constructor would
+   stay unevaluated in TLC and rebuild the fresh stack at every read                           *)
+RECURSIVE ArrFn(_, _), HashFn(_, _)
+ArrFn(k, j) == IF j > Len(k.arr) THEN (RCtx :> <<>>)
+               ELSE (Rg("arr", k.arr[j].fd, <<>>) :> k.arr[j].bytes) @@ ArrFn(k, j + 1)
+HashFn(k, j) == IF j > Len(k.hash) THEN (RPkt :> k.pkt)
+                ELSE (Rg("hash", k.hash[j].fd, k.hash[j].key) :> k.hash[j].val) @@ HashFn(k, j + 1)
+Mem(k) == (RStack :> FreshStack) @@ ArrFn(k, 1) @@ HashFn(k, 1)
 Final(k) == RunF(Env(k), Cpu0(k.entry), Mem(k), k.fuel)
 
 R0Of(c) == IF c.reg[0].t = "s" THEN c.reg[0].v ELSE <<>>
